@@ -7,6 +7,7 @@ import (
 	"errors"
 	"fmt"
 	"sort"
+	"strings"
 	"time"
 
 	"github.com/failsafe-go/failsafe-go"
@@ -264,6 +265,10 @@ func c11ConcurrentScenarios(tier string) []*Scenario {
 	add("key | no key", nokey, []ExeSpec{{Script: ok(1, 10), CacheKey: "a"}, {Script: ok(2, 10), StartAt: 5}}, map[string][]int{"a": {1}}, [][2]any{{1, nil}, {2, nil}})
 	add("no key | key", nokey, []ExeSpec{{Script: ok(1, 10)}, {Script: ok(2, 3), StartAt: 5, CacheKey: "a"}}, map[string][]int{"a": {2}}, [][2]any{{1, nil}, {2, nil}})
 	add("error | value", nokey, []ExeSpec{{Script: []Out{{Err: E1, Dur: 10}}, CacheKey: "a"}, {Script: ok(2, 3), StartAt: 5, CacheKey: "b"}}, map[string][]int{"b": {2}}, [][2]any{{0, E1}, {2, nil}})
+	// the same key, both miss: each error-free result is stored when its execution finishes
+	add("same key, first fails", nokey, []ExeSpec{{Script: []Out{{Err: E1, Dur: 20}}, CacheKey: "a"}, {Script: ok(2, 5), StartAt: 5, CacheKey: "a"}, {Script: ok(3, 5), StartAt: 30, CacheKey: "a"}}, map[string][]int{"a": {2}}, [][2]any{{0, E1}, {2, nil}, {2, nil}})
+	add("same key, later one finishes first", nokey, []ExeSpec{{Script: ok(1, 20), CacheKey: "a"}, {Script: ok(2, 5), StartAt: 5, CacheKey: "a"}, {Script: ok(3, 5), StartAt: 12, CacheKey: "a"}}, map[string][]int{"a": {1}}, [][2]any{{1, nil}, {2, nil}, {2, nil}})
+	add("same configured key, first fails", keyC, []ExeSpec{{Script: []Out{{Err: E1, Dur: 20}}}, {Script: ok(2, 5), StartAt: 5}, {Script: ok(3, 5), StartAt: 30}}, map[string][]int{"c": {2}}, [][2]any{{0, E1}, {2, nil}, {2, nil}})
 	add("three keys", nokey, []ExeSpec{{Script: ok(1, 10), CacheKey: "a"}, {Script: ok(2, 10), StartAt: 3, CacheKey: "b"}, {Script: ok(3, 2), StartAt: 6, CacheKey: "c"}}, map[string][]int{"a": {1}, "b": {2}, "c": {3}}, [][2]any{{1, nil}, {2, nil}, {3, nil}})
 	// the caller's context ends while the function (which ignores it) runs: the result is still the function's, and is stored
 	for _, src := range []string{"cancel", "deadline"} {
@@ -437,7 +442,7 @@ func init() {
 		Property:  "C02",
 		Technique: "exhaustive enumeration of retry configurations and outcome scripts executed on the real retry policy, checked against the retry layer contract; plus schedule exploration of executions sharing one policy instance",
 		Rule: "a program = maxRetries {-1,0,1,2,3} (both spellings) x handle conditions (4) x abort conditions (5) x ReturnLastFailure x every script over {ok(1), ok(0), err(E1), err(E2)} up to length 4 (thorough 5), run twice on one instance, plus max-duration programs with attempts of 0, M/2, M, M+1; " +
-			"sharing: 2-3 concurrent / successive / async executions through one instance, every schedule within the deviation bound; distinct = distinct observation logs",
+			"sharing: 2-3 concurrent / successive / async executions through one instance, every schedule within the deviation bound; HandleResult / AbortOnResult on 8 result types (pointers, structs / arrays / interfaces holding pointers, slices, maps) with deep-equal but not identical values; distinct = distinct observation logs",
 		Assume: []string{"elapsed == maxDuration exactly is not pinned by the statement: both readings accepted", "an abort-matching failure on the exhausting attempt may follow either story"},
 		Budget: map[string]time.Duration{"quick": 120 * time.Second},
 		Units: func(tier string) []Unit {
@@ -445,6 +450,28 @@ func init() {
 			for _, sc := range c02SharingScenarios(tier) {
 				us = append(us, scenarioUnit(sc))
 			}
+			// HandleResult / AbortOnResult on result types that hold pointers (deep-equal, never identical values)
+			deep := c12DeepCases()
+			us = append(us, Unit{Name: "C02/result conditions on result types holding pointers", Run: func(dl time.Time) *Stats {
+				st := &Stats{BoundCompleted: 0, outcomes: map[string]int{}}
+				for _, d := range deep {
+					var msg string
+					r := vrt.Execute(vrt.Options{}, func() { msg = d.run() })
+					st.Executions++
+					st.Steps += r.Steps
+					if r.Panic != "" {
+						msg = "panic: " + r.Panic
+					}
+					if msg != "" && (strings.HasPrefix(msg, "retry policy") || strings.HasPrefix(msg, "panic")) {
+						v := Violation{Scenario: "C12/deep/" + d.name, Message: msg}
+						v.Sig = signature(v.Scenario, msg)
+						st.Violations = append(st.Violations, v)
+					}
+				}
+				st.Sample = []string{"result types: *struct, struct holding a pointer, any holding a pointer, array of pointers, slice, map, string, struct of scalars"}
+				st.Outcomes, st.Nontrivial = st.Executions, st.Executions
+				return st
+			}})
 			return us
 		},
 	})
